@@ -113,10 +113,18 @@ def translators():
     tdir = VERIF / "translators"
     gen = COQ / "theories" / "Gen"
     gen.mkdir(parents=True, exist_ok=True)
+    outputs = {"config2coq.py": "ConfigData.v", "cmake2coq.py": "CMinxCMake.v"}
     for script in sorted(tdir.glob("*2coq.py")):
         rc, out = run([PY, "-B", str(script), str(REPO), str(gen)], timeout=120)
         if rc != 0:
             failures[script.name] = out[-2000:]
+            # the source no longer has a shape the translator understands: the obligation is
+            # broken (reported by the property's check).  So that the search for a concrete failing
+            # input can still run, the model falls back to the last translation of the pinned
+            # source, kept under translators/baseline/.
+            base = tdir / "baseline" / outputs.get(script.name, "")
+            if base.is_file():
+                shutil.copy(base, gen / base.name)
     return failures
 
 
